@@ -32,6 +32,9 @@ MANIFEST = dict(
 
 def run(ctx):
     variant, cov = fancheck.run(ctx, "C04", PROPS, LEVEL)
+    if not ctx.replay and not ctx.violations and not ctx.broken:
+        from vlib import fanreal
+        fanreal.run_part(ctx, cov, ctx.quick())      # real exec transport: commands alive at the same time <= fanout
     return ctx.finish(LEVEL, cov, assumptions=fancheck.assumptions(variant),
                       trusted_base=fancheck.TRUSTED,
                       checker_cmd="lake build PdshVerif.Props.C04 && #print axioms on every theorem of Props/C04.lean")
